@@ -411,6 +411,19 @@ CHECKS["C10"] = {
     "assumptions": ["cooperative goroutines; sync.Mutex with blocking Lock; context model", "math/big.Int model for block numbers (SetUint64/Uint64/Int64)",
                     "the connector is a harness implementation of the package's Connector interface (same code natively and symbolically)"],
 }
+CHECKS["C18"] = {
+    "runs": [
+        {"pkg": "./pkg/supervisor", "entry": "VerifC18_Died", "reach": ["done-stays-done", "canceled", "dead"], "opts": {"z3": "z3-new"}},
+        {"pkg": "./pkg/supervisor", "entry": "VerifC18_GC", "reach": ["rescheduled", "nothing-to-restart"], "opts": {"z3": "z3-new"},
+         "shards": {"quick": ["shape=0,1,2,3", "shape=4", "shape=5", "shape=6"]}},
+        {"pkg": "./pkg/supervisor", "entry": "VerifC18_KillAndWrapper", "reach": ["end"], "opts": {"z3": "z3-new"}},
+    ],
+    "bounds": {"quick": {"decisions": "the supervisor's sequential decision procedures on the real code - processDied, processGC (run twice), processKill, the start wrapper of processSchedule - over all seven tree shapes with <= 4 nodes and depth <= 3 (single child, grouped and ungrouped siblings, chains, a child with grouped children); every node's state symbolic (5 states; DEAD/CANCELED with cancelled context, as the supervisor itself produces them); death messages nil / context.Canceled / wrapped context.Canceled / other error; service exits: nil, error, panic (panic capture on)"},
+               "thorough": {}},
+    "outside": "PARTIAL by design (DESIGN 7): real goroutine interleavings of the processor with running services, the 1 ms scan timing, back-off durations (arbitrary in the model) and everything only the race detector can tell are outside; 'never two instances at once' is decided through the scan's precondition (only fully stopped subtrees are rescheduled, nothing is scheduled twice) given that DEAD/CANCELED are only written after the service function returned (start wrapper harness)",
+    "assumptions": ["context model (derived contexts with parent links, cancellation propagation, values)", "backoff.NextBackOff returns an arbitrary non-negative duration; time.Sleep is a no-op; regexp name check always passes",
+                    "cooperative goroutines for the start wrapper and the rescheduling goroutines", "fmt.Errorf with %w builds a real *fmt.wrapError"],
+}
 
 # generated harness parts per (module, package): regenerated from /repo on every run for every check that loads the package
 GENERATORS = {("node", "./pkg/vaa"): [_gen_c04], ("node", "./pkg/processor"): [_gen_c07], ("node", "./pkg/alephium"): [_gen_c11], ("node", "./cmd/guardiand"): [_gen_c15]}
